@@ -32,7 +32,7 @@ ASSUMPTIONS = [
     "triangle geometry reference: octahedron roots S0..N3 = ids 8..15 with the published HTM vertex order, child k of a triangle = id*4+k, midpoints normalised, evaluated in long double; a position 'lies in' its triangle if it is not further outside any edge plane than 2e-15/|v_a x v_b| + 1e-15 rad (the library's documented boundary epsilon of 1e-15 on the triple product, doubled)",
     "intersection margins (not in the statement, from DESIGN.md): a probe with sep <= r(1-1e-9) must have its id in the inclusive list; a triangle in the full list may only contain sample points with sep <= r(1+1e-9)",
     "geometric oracle B uses 7 sample points per triangle (3 vertices, 3 edge midpoints, centroid): a triangle with a sample point inside the circle by the margin has interior positions inside the circle and must therefore be listed; triangles that meet the circle only between sample points are decided by the probe oracle A only",
-    "sanity bound beyond the literal statement: every listed triangle must at least have its bounding circle meet the search circle (a list of all triangles would satisfy coverage vacuously), and the lists contain no duplicates and only ids of the object's depth",
+    "sanity bound beyond the literal statement (vacuity guard): every listed triangle must at least have its bounding circle, enlarged to twice its radius, meet the search circle (a list of all triangles would satisfy coverage vacuously; the library lists triangles up to 0.56 bounding radii outside a circle of radius >= 90 degrees, which the statement allows), and the lists contain no duplicates and only ids of the object's depth",
     "bincount: bin edges rmin*(rmax/rmin)^(i/nbin); returned edges compared to 1e-12 relative; pairs within 1e-9 relative of any edge (incl. rmin, rmax) are free, every other pair must be counted exactly once in its bin; only configurations with rmax/scale <= pi rad (rmax <= 180 deg unscaled) are on the lattice",
     "bincount depth is bounded by the size of the reverse-index table (8*4^depth entries when the second set covers the sphere): depth <= 8 for sphere-wide sets, deeper depths only with a second set localised within about a degree",
     "the lattice parts construct a fresh HTM object for every call; independence of earlier calls on one object is covered by a separate history part (all sequences of <= 3 (thorough 4) calls out of 7, each result compared with the same call on a fresh object)",
@@ -121,10 +121,11 @@ def samples7(v0, v1, v2):
     return [v0, v1, v2, _norm(v0 + v1), _norm(v1 + v2), _norm(v2 + v0), _norm(v0 + v1 + v2)]
 
 
-def near_triangles(cen, r, depth):
+def near_triangles(cen, r, depth, factor=1.01):
     """ids and vertices of every depth-`depth` triangle whose bounding circle
     (about the centroid, through the farthest vertex, +1%) meets the circle of
-    radius r [rad] about the unit vector cen: a superset of the intersecting ones"""
+    radius r [rad] about the unit vector cen: a superset of the intersecting ones
+    (factor > 1.01: the bounding circle enlarged accordingly)"""
     ids = np.arange(8, 16, dtype="i8")
     v0, v1, v2 = _ROOTTAB[:, 0], _ROOTTAB[:, 1], _ROOTTAB[:, 2]
     for lev in range(0, depth + 1):
@@ -134,7 +135,7 @@ def near_triangles(cen, r, depth):
             v0, v1, v2 = [np.concatenate([ch[k][j] for k in range(4)]) for j in range(3)]
         c = _norm(v0 + v1 + v2)
         rad = np.maximum(np.maximum(vsep(c, v0), vsep(c, v1)), vsep(c, v2))
-        keep = vsep(c, cen[None, :]) <= r + rad * LD(1.01) + LD(1e-12)
+        keep = vsep(c, cen[None, :]) <= r + rad * LD(factor) + LD(1e-12)
         ids, v0, v1, v2 = ids[keep], v0[keep], v1[keep], v2[keep]
     return ids, v0, v1, v2
 
@@ -658,8 +659,15 @@ def main(ctx):
                 return rec.fail(case, "%s list contains duplicate ids" % nm)
         stray = ~np.isin(sinc, nid)
         if stray.any():
-            return rec.fail(case, "inclusive list contains triangle %d whose bounding circle does not meet the circle"
-                            % int(sinc[stray][0]))
+            # vacuity guard only (not in the statement): the library may list a few triangles that just miss the
+            # circle (for radii >= 90 degrees, where the constraint cosine is not positive, it does: measured up to
+            # 0.56 bounding radii away), but nothing farther than one more bounding radius
+            wid = near_triangles(cen, rr, depth, factor=2.02)[0]
+            stray = ~np.isin(sinc, wid)
+            rec.count("listed_triangles_just_outside", int((~np.isin(sinc, nid)).sum()))
+        if stray.any():
+            return rec.fail(case, "inclusive list contains triangle %d whose doubled bounding circle does not meet the "
+                                  "circle" % int(sinc[stray][0]))
         rec.count("probes", int(pid.size))
         rec.count("probes_inside", int(inside.sum()))
         rec.count("triangles_enumerated", int(nid.size))
